@@ -22,8 +22,10 @@ type harness struct {
 	ctx  *corr.Ctx
 	exe  string
 	dir  string
-	par  int
-	nrun int
+	par   int
+	nrun  int
+	nviol int
+	ndis  int
 }
 
 func corpusDir() string {
@@ -239,6 +241,7 @@ func equalLines(a, b []string) bool {
 }
 
 func (h *harness) violate(sc *Script, clause, key, detail string) {
+	h.nviol++
 	h.ctx.Violate(corr.Violation{Property: prop, Clause: clause, Key: key + "/" + sc.shape(), Where: "client.go", Input: sc, Detail: sc.Name + " [" + sc.Cfg.String() + "]: " + detail})
 }
 
@@ -280,6 +283,10 @@ func (h *harness) report(sc *Script, o *Outcome) {
 func (h *harness) process(scripts []*Script) {
 	const batch = 160
 	for len(scripts) > 0 {
+		if h.nviol+h.ndis >= 6 {
+			h.ctx.Note(fmt.Sprintf("stopped early after %d confirmed violations and %d persistent disagreements; %d conversations not run", h.nviol, h.ndis, len(scripts)))
+			return
+		}
 		n := min(batch, len(scripts))
 		cur := scripts[:n]
 		scripts = scripts[n:]
@@ -320,7 +327,17 @@ func (h *harness) process(scripts []*Script) {
 		}
 		if len(res.LeakedGo) > 0 || res.LeakedFDs != 0 {
 			h.ctx.Dist("batch-leak")
-			h.bisectLeak(cur)
+			hung := false
+			for _, o := range res.Outcomes {
+				for _, v := range o.Viol {
+					if strings.HasPrefix(v.Key, "call-hang") || strings.HasPrefix(v.Key, "close-hang") {
+						hung = true // what a hung call leaves behind is not a leak of Close
+					}
+				}
+			}
+			if !hung {
+				h.bisectLeak(cur)
+			}
 		}
 		// model comparison for the whole batch, then confirm what looks wrong
 		var opsList, implList [][]string
@@ -348,6 +365,13 @@ func (h *harness) process(scripts []*Script) {
 			if o != nil && (len(o.Viol) > 0 || bad[i] || o.Err != "") {
 				sus = append(sus, i)
 			}
+		}
+		if len(sus) > 8 { // enough to decide; the rest would only repeat the same findings
+			h.ctx.Note(fmt.Sprintf("%d suspicious conversations in one batch, confirming 8 of them", len(sus)))
+			for _, i := range sus[8:] {
+				res.Outcomes[i] = nil
+			}
+			sus = sus[:8]
 		}
 		final := map[int]*Outcome{}
 		for _, par := range []int{4, 1} {
@@ -437,6 +461,7 @@ func (h *harness) confirm(sc *Script, first *Outcome) *Outcome {
 		first = o
 	}
 	if len(first.Viol) == 0 {
+		h.ndis++
 		b, _ := json.Marshal(sc)
 		if len(b) > 3000 {
 			b = b[:3000]
